@@ -11,6 +11,7 @@ import (
 	"reflect"
 	"sort"
 	"strconv"
+	"sync"
 )
 
 // OrderMode selects how the simulator permutes the canonically sorted keys of
@@ -71,6 +72,7 @@ type Sim struct {
 	AdvPick  bool  // choose AdvSite lazily: the AdvNth distinct range site met
 	AdvNth   int
 	seenSite map[int32]bool
+	pools    map[*sync.Pool][]poolItem // simulated sync.Pool contents, per execution
 
 	// Lenient replay (used only while shrinking a schedule): when the trace
 	// does not fit the run any more, the rest of the run uses canonical order.
